@@ -157,3 +157,27 @@ def decimal_copies(rng, cases, count, pred=lambda c: True):
         d["regime"] = "D1"
         out.append(d)
     return out
+
+
+def _scale2(obj):
+    if isinstance(obj, list):
+        if len(obj) == 2 and all(isinstance(x, int) and not isinstance(x, bool) for x in obj):
+            return [2 * obj[0], 2 * obj[1]]
+        return [_scale2(x) for x in obj]
+    return obj
+
+
+def p3_copies(rng, cases, keys, count, pred=lambda c: True, extra=lambda d: d):
+    """copies of sampled K0 cases re-read in regime P3 (set_precision(3), millisecond ticks, decimal values) with every
+    bound doubled, so that every length and gap is an even number of ticks (never exactly one tick, where emptiness
+    depends on float noise)"""
+    pool = [c for c in cases if c.get("regime") == "K0" and pred(c)]
+    out = []
+    for _ in range(min(count, len(pool))):
+        d = dict(rng.choice(pool))
+        d["regime"] = "P3"
+        for k in keys:
+            if k in d:
+                d[k] = _scale2(d[k])
+        out.append(extra(d))
+    return out
